@@ -69,10 +69,10 @@ func (r Int32) MAX(a, b Int32) Scalar {
 }
 /* -------------------------------------------------------------------------- */
 func (c Int32) ABS(a Int32) Scalar {
-  if c.Sign() == -1 {
-    c.NEG(a)
-  } else {
-    c.SET(a)
+  switch a.Sign() {
+  case -1: c.NEG(a)
+  case  0: c.Reset()
+  case  1: c.SET(a)
   }
   return c
 }
